@@ -492,39 +492,32 @@ func substringFunc(arg1, arg2, arg3 query) func(query, iterator) interface{} {
 		if start, ok = functionArgs(arg2).Evaluate(t).(float64); !ok {
 			panic(errors.New("substring() function first argument type must be number"))
 		}
+		// The result holds the characters at the positions p with
+		// round(start) <= p < round(start) + round(length), where round() is
+		// the XPath function (halves are rounded towards positive infinity).
 		// fix https://github.com/antchfx/xpath/issues/109
-		start = math.Round(start)
-		if start > float64(len(m)) {
+		first := math.Floor(start + 0.5)
+		last := math.Inf(1)
+		if arg3 != nil {
+			if length, ok = functionArgs(arg3).Evaluate(t).(float64); !ok {
+				panic(errors.New("substring() function second argument type must be number"))
+			}
+			last = first + math.Floor(length+0.5)
+		}
+		if math.IsNaN(first) || math.IsNaN(last) || first > float64(len(m)) {
 			return ""
 		}
-		if arg3 == nil {
-			if start <= 0 {
-				return m
-			}
-			return m[int(start)-1:]
+		lo, hi := 1, len(m)+1
+		if first > 1 {
+			lo = int(first)
 		}
-
-		if length, ok = functionArgs(arg3).Evaluate(t).(float64); !ok {
-			panic(errors.New("substring() function second argument type must be number"))
-		}
-		length = math.Round(length)
-		if length <= 0 {
+		if last <= float64(lo) {
 			return ""
 		}
-		if length > float64(len(m)) {
-			length = float64(len(m))
+		if last < float64(hi) {
+			hi = int(last)
 		}
-		if start < 0 {
-			length = length - math.Abs(start)
-			if length <= 1 {
-				return ""
-			}
-			return m[:int(length-1)]
-		}
-		if start == 0 {
-			return m[:int(length-1)]
-		}
-		return m[int(start-1):int(length+start-1)]
+		return m[lo-1 : hi-1]
 	}
 }
 
